@@ -1,6 +1,6 @@
 (* C15 JSON round-trip fidelity of flags and segments (document-tree level; integers within the int64 range, which
    every decoded integer is; number text <-> float64 is outside the model) *)
-From LD Require Import Base F32 Data Model Ops Codec CodecFacts CodecRT.
+From LD Require Import Base F32 Data Model Ops Codec CodecFacts CodecRT DecodeWF.
 
 (* decode (encode v) returns the canonical form of v: lookup data dropped, a rollout without buckets dropped,
    legacy client-side flags normalised *)
@@ -54,3 +54,23 @@ Print Assumptions C15_canonical_form_same_json.
 Theorem C15_hypotheses_nonvacuous : wf_flag sample_flag /\ exact_flag sample_flag.
 Proof. exact sample_flag_wf. Qed.
 Print Assumptions C15_hypotheses_nonvacuous.
+
+(* every document the decoder accepts yields a well-formed flag, so the fixed-point theorem applies to all of them:
+   for EVERY accepted JSON text j, encoding the decoded flag and decoding again reaches a value that encodes to the
+   same JSON and decodes to itself from then on *)
+Theorem C15_decoded_flags_are_wellformed : forall j f, decode_flag j = Some f -> wf_flag f.
+Proof. exact decode_flag_wf. Qed.
+Print Assumptions C15_decoded_flags_are_wellformed.
+Theorem C15_accepted_document_fixed_point : forall j f1, decode_flag j = Some f1 ->
+  exists f2, decode_flag (encode_flag f1) = Some f2 /\ encode_flag f2 = encode_flag f1 /\
+             decode_flag (encode_flag f2) = Some f2.
+Proof. exact accepted_document_reaches_fixed_point. Qed.
+Print Assumptions C15_accepted_document_fixed_point.
+Theorem C15_decoded_segments_are_wellformed : forall j sg, decode_segment j = Some sg -> wf_segment sg.
+Proof. exact decode_segment_wf. Qed.
+Print Assumptions C15_decoded_segments_are_wellformed.
+Theorem C15_accepted_segment_fixed_point : forall j s1, decode_segment j = Some s1 ->
+  exists s2, decode_segment (encode_segment s1) = Some s2 /\ encode_segment s2 = encode_segment s1 /\
+             decode_segment (encode_segment s2) = Some s2.
+Proof. exact accepted_segment_reaches_fixed_point. Qed.
+Print Assumptions C15_accepted_segment_fixed_point.
